@@ -1,5 +1,5 @@
 (* C17: the update law for what NamedGlob.glob() really scans, with NO hypothesis about the
-   candidate list: on the fragment G1S (model/GlobTree.v) the candidates glob.glob returns for the
+   candidate list: on the fragments G1S (model/GlobTree.v) and G2S (model/GlobTreeRec.v: `dir/sub/**`) the candidates glob.glob returns for the
    translated pattern are complete and sound for the compiled regex on EVERY well-formed finite
    tree (proofs/NglobCands.v, NglobCands2.v), so the hypothesis of update_equals_rescan_candidates
    is discharged and the law holds between two glob() scans of two arbitrary trees.
@@ -13,10 +13,13 @@ From SV Require Import lib.Regex.
 From SV Require Import model.Nglob.
 From SV Require Import model.GlobSem.
 From SV Require Import model.GlobTree.
+From SV Require Import model.GlobTreeRec.
 From SV Require Import model.NglobBatch.
 From SV Require Import proofs.NglobProofs.
 From SV Require Import proofs.NglobCands.
 From SV Require Import proofs.NglobCands2.
+From SV Require Import proofs.NglobCands3.
+From SV Require Import proofs.NglobCands4.
 From SV Require Import proofs.NglobBatchProofs.
 Import ListNotations.
 Open Scope N_scope.
@@ -39,22 +42,28 @@ Proof.
   intros H. inversion H; subst. exists ps. split; reflexivity.
 Qed.
 
-(* On G1S, as far as accepted paths are concerned, the candidates ARE the existing paths. *)
-Lemma candidates_agree_g1s t p subs g gp :
-  wf_tree t = true -> g1s p subs = true -> ng_make p subs = COk g -> conv_glob p subs = COk gp ->
+(* On G1S and on G2S, as far as accepted paths are concerned, the candidates ARE the existing paths. *)
+Definition e2e_fragment (p : str) (subs : subs_t) : Prop := g1s p subs = true \/ g2s p = true.
+
+Lemma candidates_agree t p subs g gp :
+  wf_tree t = true -> e2e_fragment p subs -> ng_make p subs = COk g -> conv_glob p subs = COk gp ->
   forall q, ng_mv g q <> None -> (In q (glob_paths t gp) <-> In q (all_paths t)).
 Proof.
-  intros Hwf Hg Hm Hgp q Hq. destruct (ng_make_parts p subs g Hm) as [ps [Hc Hre]].
-  apply ng_mv_accepts in Hq. unfold ng_accepts in Hq. rewrite Hre in Hq. split.
-  - intros Hin. exact (proj1 (glob_candidates_sound_partial t p subs ps gp q Hwf Hg Hc Hgp Hin)).
-  - intros Hin. unfold g1s in Hg. apply andb_true_iff in Hg as [Hg _]. apply andb_true_iff in Hg as [Hg _].
-    exact (glob_candidates_complete_partial t p subs ps gp q Hwf Hg Hc Hgp Hin Hq).
+  intros Hwf Hfr Hm Hgp q Hq. destruct (ng_make_parts p subs g Hm) as [ps [Hc Hre]].
+  apply ng_mv_accepts in Hq. unfold ng_accepts in Hq. rewrite Hre in Hq. destruct Hfr as [Hg|Hg].
+  - split.
+    + intros Hin. exact (proj1 (glob_candidates_sound_partial t p subs ps gp q Hwf Hg Hc Hgp Hin)).
+    + intros Hin. unfold g1s in Hg. apply andb_true_iff in Hg as [Hg _]. apply andb_true_iff in Hg as [Hg _].
+      exact (glob_candidates_complete_partial t p subs ps gp q Hwf Hg Hc Hgp Hin Hq).
+  - split.
+    + intros Hin. exact (glob_candidates_exist_rec_partial t p subs gp q Hwf Hg Hgp Hin).
+    + intros Hin. exact (glob_candidates_complete_rec_partial t p subs ps gp q Hwf (g2s_g2 p Hg) Hc Hgp Hin Hq).
 Qed.
 
 (* Part 1: two scans of two trees. *)
-Theorem glob_update_equals_rescan_g1s :
+Theorem glob_update_equals_rescan_fragment :
   forall (t t' : list entry) (p : str) (subs : subs_t) (g : ng) (gp : str) (added deleted : list str),
-    wf_tree t = true -> wf_tree t' = true -> g1s p subs = true ->
+    wf_tree t = true -> wf_tree t' = true -> e2e_fragment p subs ->
     ng_make p subs = COk g -> conv_glob p subs = COk gp ->
     (forall q, In q added -> In q (all_paths t')) ->
     (forall q, In q deleted -> ~ In q (all_paths t')) ->
@@ -69,16 +78,16 @@ Proof.
   intros t t' p subs g gp added deleted Hwf Hwf' Hg Hm Hgp Hadd Hdel Hfs.
   exact (update_equals_rescan_candidates key key_eqb key_eqb_spec (ng_mv g)
            (all_paths t) (all_paths t') (glob_paths t gp) (glob_paths t' gp) added deleted
-           (candidates_agree_g1s t p subs g gp Hwf Hg Hm Hgp)
-           (candidates_agree_g1s t' p subs g gp Hwf' Hg Hm Hgp) Hadd Hdel Hfs).
+           (candidates_agree t p subs g gp Hwf Hg Hm Hgp)
+           (candidates_agree t' p subs g gp Hwf' Hg Hm Hgp) Hadd Hdel Hfs).
 Qed.
 
 (* Part 2: glob() on t, one watch phase, commit: the row holds glob() on t'. *)
-Theorem watch_commit_equals_glob_g1s :
+Theorem watch_commit_equals_glob_fragment :
   forall (t t' : list entry) (p : str) (subs : subs_t) (g : ng) (gp : str)
          (rel : bool -> str -> bool) (under : bool -> str -> list str)
          (tr : list (item * list str)) (unchanged : list str),
-    wf_tree t = true -> wf_tree t' = true -> g1s p subs = true ->
+    wf_tree t = true -> wf_tree t' = true -> e2e_fragment p subs ->
     ng_make p subs = COk g -> conv_glob p subs = COk gp ->
     (forall db q, ng_mv g q <> None -> rel db q = true) ->
     trace_ok key (ng_mv g) under (all_paths t) tr ->
@@ -97,14 +106,14 @@ Proof.
   set (mv := ng_mv g) in *. set (fs := all_paths t) in *. set (fsF := trace_final fs tr) in *.
   assert (Hreach : reachable key key_eqb mv old) by (apply reach_extend; apply reach_nil).
   assert (Hold : results_eqb key_eqb old (scan key_eqb mv fs) = true).
-  { apply (scan_equiv key key_eqb key_eqb_spec). exact (candidates_agree_g1s t p subs g gp Hwf Hg Hm Hgp). }
+  { apply (scan_equiv key key_eqb key_eqb_spec). exact (candidates_agree t p subs g gp Hwf Hg Hm Hgp). }
   (* the scan of the final path set of the trace equals the glob() scan of t' *)
   assert (HF : results_eqb key_eqb (scan key_eqb mv fsF) fresh = true).
   { apply (scan_equiv key key_eqb key_eqb_spec). intros q Hq.
-    rewrite (Hfin q Hq). symmetry. exact (candidates_agree_g1s t' p subs g gp Hwf' Hg Hm Hgp q Hq). }
+    rewrite (Hfin q Hq). symmetry. exact (candidates_agree t' p subs g gp Hwf' Hg Hm Hgp q Hq). }
   assert (HF' : results_eqb key_eqb fresh (scan key_eqb mv fsF) = true).
   { apply (scan_equiv key key_eqb key_eqb_spec). intros q Hq.
-    rewrite (Hfin q Hq). exact (candidates_agree_g1s t' p subs g gp Hwf' Hg Hm Hgp q Hq). }
+    rewrite (Hfin q Hq). exact (candidates_agree t' p subs g gp Hwf' Hg Hm Hgp q Hq). }
   destruct (watch_batch_update_equals_rescan key key_eqb key_eqb_spec mv rel under Hrel fs tr unchanged old
               Htr Hpr Hreach Hold) as [Hov _]. fold st in Hov.
   split; [exact Hov|]. intros new changed Hproc.
@@ -134,7 +143,7 @@ Definition e2e_t' : list entry := [([115;114;99], Dir [([97;46;99], File); ([98;
 Definition e2e_added : list str := [[115;114;99;47;98;46;99]].
 
 Example glob_update_equals_rescan_g1s_hyps_satisfiable :
-  wf_tree e2e_t = true /\ wf_tree e2e_t' = true /\ g1s ex_pat1 [] = true
+  wf_tree e2e_t = true /\ wf_tree e2e_t' = true /\ g1s ex_pat1 [] = true /\ g2s ex_pat4 = true
   /\ (exists g, ng_make ex_pat1 [] = COk g
         /\ files (scan key_eqb (ng_mv g) (glob_paths e2e_t [115;114;99;47;42;46;99])) = [[115;114;99;47;97;46;99]]
         /\ will_change key_eqb (ng_mv g) (scan key_eqb (ng_mv g) (glob_paths e2e_t [115;114;99;47;42;46;99])) [] e2e_added <> None)
@@ -144,6 +153,7 @@ Example glob_update_equals_rescan_g1s_hyps_satisfiable :
   /\ (forall q, In q (all_paths e2e_t') <-> (In q (all_paths e2e_t) /\ ~ In q (@nil str)) \/ In q e2e_added).
 Proof.
   split; [vm_compute; reflexivity|]. split; [vm_compute; reflexivity|]. split; [vm_compute; reflexivity|].
+  split; [vm_compute; reflexivity|].
   split.
   { eexists. split; [vm_compute; reflexivity|]. split; [vm_compute; reflexivity|]. vm_compute. discriminate. }
   split; [vm_compute; reflexivity|].
